@@ -70,6 +70,13 @@ fn validate_path(origin: &crate::ast::Variant, variants_map: &HashMap<&Ident, &c
                 return Err(Error::new_spanned(parent.original, "Parents must be of Master type"))
             }
 
+            // The element's path up to its parent must be exactly the parent's own path
+            let parent_index = path_parts.iter().rposition(|p| matches!(p, PathPart::Ident(_))).unwrap();
+            let parent_path_len = parent.path_attr.as_ref().map_or(0, |(parent_path, _)| parent_path.parts.len());
+            if parent_index != parent_path_len {
+                return Err(Error::new_spanned(origin.original, format!("Path does not extend the path of parent [{}].", parent.ident)));
+            }
+
             if let Some((parent_path, _)) = parent.path_attr.as_ref() {
                 for i in 0..parent_path.parts.len() {
                     if parent_path.parts[i] != path_parts[i] {
